@@ -161,7 +161,7 @@ func c03GenHistory(r *rand.Rand, rs []rateSpec, nsrc, nreq int) []c03Req {
 					gap = ttl + time.Duration(r.IntN(3)-1)
 				}
 				out = append(out, c03Req{gap, r.IntN(nsrc), c03Amt(r, minBurst)})
-				for b := 0; b < int(minBurst)+2; b++ {
+				for b := 0; b < int(min(minBurst, 40))+2; b++ {
 					out = append(out, c03Req{0, out[len(out)-1].src, 1})
 				}
 			}
@@ -172,7 +172,7 @@ func c03GenHistory(r *rand.Rand, rs []rateSpec, nsrc, nreq int) []c03Req {
 			}
 		case 4: // align to the next whole second, then burst
 			out = append(out, c03Req{-1, r.IntN(nsrc), 1}) // dt<0: align
-			for b := 0; b < int(minBurst)+3; b++ {
+			for b := 0; b < int(min(minBurst, 40))+3; b++ {
 				out = append(out, c03Req{0, out[len(out)-1].src, c03Amt(r, minBurst)})
 			}
 		default: // random mix
@@ -210,6 +210,13 @@ func c03Bound(c *Ctx) {
 		if !c.Quick() && i%40 == 0 {
 			nreq = 50000
 		}
+		quota := i%6 == 5
+		if quota {
+			// quota-style configuration: long period, very large average/burst, amounts in the hundreds of thousands
+			avg := int64(100000 * (1 + r.IntN(100)))
+			rs = []rateSpec{{pick(r, []time.Duration{time.Hour, 24 * time.Hour}), avg, avg * int64(1+r.IntN(5))}}
+			c.Count("quota_style_histories", 1)
+		}
 		if i == 0 { // forced: the R3 witness (1/s burst 5, 10 req/s for 110 s)
 			rs = []rateSpec{{time.Second, 1, 5}}
 			nsrc = 1
@@ -246,6 +253,16 @@ func c03Bound(c *Ctx) {
 			}
 		} else {
 			hist = c03GenHistory(r, rs, nsrc, nreq)
+			if quota {
+				for k := range hist {
+					if hist[k].amt > 1 || r.IntN(2) == 0 {
+						hist[k].amt = 1 + r.Int64N(rs[0].Burst)
+						if r.IntN(10) == 0 {
+							hist[k].amt = rs[0].Burst + 1 + r.Int64N(rs[0].Burst)
+						}
+					}
+				}
+			}
 		}
 		logs := make([][]admitEv, nsrc)
 		var rejected, admittedAfterReject, overBurstAdmitted int
